@@ -38,9 +38,9 @@ PROPS = {
                     'harness reads len(pool.Message.valueBuffer) with reflect (no hook)'],
         'assumptions': ['Go slices modelled as lists (level 1) and as views into arrays (level 2); append growth policy left open (any capacity)',
                         'int indices do not overflow (lists shorter than 2^62)'],
-        'level_text': 'TODO',
-        'level_note': 'TODO',
-        'explanation': 'TODO',
+        'level_text': 'Coq theorems (Properties/C15.v): findPosition returns the split (last smaller, first larger) on every sorted list within its fuel; Set/Add/Remove/Find with their in-place shifting loops equal the sorted-multiset reference on every sorted list and keep it sorted; every operation except set-path refines the reference for message.Options (all operation sequences by induction) and for the pool.Message builder (grow-and-retry); refused ResetOptionsTo leaves the list unchanged; Clone is the identity; single and multi-value getters never index outside the slice and answer as the reference; uint values are minimal big-endian. Model tied to the Go code step by step (returns, list, every getter) on all 12^3 set/add/remove sequences, directed boundary cases and random sequences.',
+        'level_note': 'set-path/path round trip (GetPathBufferSize, setPath, Path) and byte-level stability of values under value-buffer growth are covered by the correspondence check only (model vs code on empty/255/256-byte segments, buffers needed-1/needed/needed+1, values around 256 bytes, clone-then-overwrite), not by a theorem. Trusted: Coq kernel + vm_compute, generator, harness.',
+        'explanation': 'Theorems: find_position specification, Set/Add/Remove/Find = splices = sorted-multiset reference, refinement of every non-path operation and of all operation sequences, builder (pool.Message) refinement, getters total and consistent, ResetOptionsTo/Clone. Correspondence: message.Options (capacities 0/1/16) and pool.Message driven by exhaustive small, directed and random operation sequences; after every step return values, len(valueBuffer), the list and nine getter kinds (exact/+1/-1 result slices) compared with the model and judged by the reference.',
     },
 }
 
